@@ -295,7 +295,9 @@ def r2_order(report, repo):
                'the temp file is removed in the finally; the finally does not '
                'rename')
   r = [c for n, c in lib.nodes_with_call(g) if call_name(c) in SINKS][0]
-  report.check([dotted(x) for x in r.args[:2]] == ['tmpf.name', 'filename'],
+  tmpn = lib.local_from(f, lib.calls(attr='NamedTemporaryFile'), 'tmpf')
+  report.check([dotted(x) for x in r.args[:2]] == [tmpn + '.name',
+                                                   lib.param_names(f.node)[0]],
                rule, f.qualname, 'rename-args', r, 'rename(temp, destination)')
 
 
@@ -333,9 +335,11 @@ def r3_filename(report, repo):
               'that name')
   f = repo.func(CB, 'OutputToFile.create_file_name')
   fs = core.calls_in(f.node, attr='format_string')
+  rd = lib.local_from(f, lib.calls(attr='convert_to_base_types'),
+                      'record_dict')
   ok = len(fs) == 1 and [dotted(a) for a in fs[0].args] == [
-      'self.filename_pattern', 'record_dict']
-  defs = lib.resolve_local(f, 'record_dict')
+      'self.filename_pattern', rd]
+  defs = lib.resolve_local(f, rd)
   ok = ok and len(defs) == 1 and last_attr(defs[0]) == 'convert_to_base_types' \
       and dotted(defs[0].args[0]) == lib.param_names(f.node)[1]
   if ok:
